@@ -6,7 +6,7 @@ import CimbaModel.HashHeap.Orders
 import CimbaModel.HashHeap.GuardOrder
 import CimbaModel.HashHeap.Hash
 import CimbaModel.HashHeap.Inv
-import CimbaModel.HashHeap.RefineRun
+import CimbaModel.HashHeap.RefineTrace
 
 namespace CimbaModel.Props.C02
 open CimbaModel CimbaModel.HashHeap CimbaModel.Generated CimbaModel.KPQ
@@ -173,6 +173,25 @@ theorem reachable_WF [StrictWeak lt] [IgnoresHidx lt] (e : Nat) (h1 : 1 ≤ e) (
     ∃ s0, init e = .ok s0 ∧ (PreAll lt s0 ops → ∃ s', run lt s0 ops = .ok s' ∧ WF lt s') := by
   obtain ⟨s0, hinit, hwf, _⟩ := init_spec (lt := lt) e h1 h31
   exact ⟨s0, hinit, fun hpre => run_WF ops hwf hpre⟩
+
+/-- one operation with its observable result is a step of the keyed-priority-queue specification `SpecStep`
+    (HashHeap/RefineTrace.lean) on the abstraction -/
+theorem op_refines_spec [StrictWeak lt] [IgnoresHidx lt] {s : HH} (h : WF lt s) (op : Op) (hpre : OpPre s op) :
+    ∃ s' r, stepR lt s op = .ok (s', r) ∧ WF lt s' ∧ SpecStep lt (abs s, s.counter) op r (abs s', s'.counter) :=
+  step_refines h op hpre
+
+/-- C02 for whole histories: from any initial exponent, every operation sequence whose operations meet their
+    preconditions runs without fault, and the observable results (keys issued, tags dequeued / peeked / looked up
+    without their internal back-pointer, removal and membership answers, pattern counts and finds) form a run of
+    the specification started from the empty queue -/
+theorem history_refines_spec [StrictWeak lt] [IgnoresHidx lt] (e : Nat) (h1 : 1 ≤ e) (h31 : e ≤ 31) (ops : List Op) :
+    ∃ s0, init e = .ok s0 ∧ (PreAll lt s0 ops →
+      ∃ s' rs, runR lt s0 ops = .ok (s', rs) ∧ WF lt s' ∧ SpecRun lt ([], 0) ops rs (abs s', s'.counter)) := by
+  obtain ⟨s0, hinit, hwf, habs, hct, _⟩ := init_spec (lt := lt) e h1 h31
+  refine ⟨s0, hinit, fun hpre => ?_⟩
+  obtain ⟨s', rs, hrun, hwf', hspec⟩ := run_refines ops hwf hpre
+  rw [habs, hct] at hspec
+  exact ⟨s', rs, hrun, hwf', hspec⟩
 
 end refinement
 
